@@ -155,7 +155,8 @@ def loadRetryDelay : Int := 30
 structure Cfg where
   codec : Codec
   policy : Policy
-  ownerFix : OwnerFix
+  shouldOwn : Bool         -- `crud_config.own_resource and owner_namespace == namespace`
+  ownerRef : JVal          -- the parent's owner reference (a map with a `uid`)
   createEnabled : Bool     -- `spec.create.enabled` (readonly functions are not managing and are C07's)
   createDelay : JVal
   createView : JVal        -- `resource_view` handed to `_prepare_for_api` by `_create_api_resource`
@@ -182,13 +183,66 @@ structure PassResult where
 def unchanged (live : JVal) : PassResult := ⟨some live, .okLive live, []⟩
 def raisedAt (live : JVal) : PassResult := ⟨some live, .raised, []⟩
 
+/-! ### the owner-reference check (`_validate_owner_reffed` / `_updated_owner_refs`) -/
+
+def uidOf (kvs : List (String × JVal)) : JVal := (lookup "uid" kvs).getD .null
+
+/-- `for current_ref in owner_refs: if current_ref.get("uid") == trigger_uid: return True`;
+    `none` = `.get` on a member that is not a map raised before a match was found -/
+def scanRefs (uid : JVal) : List JVal → Option Bool
+  | [] => some false
+  | .obj kvs :: rest => if pyEq (uidOf kvs) uid then some true else scanRefs uid rest
+  | _ :: _ => none
+
+/-- the live object's `metadata.ownerReferences`, when `metadata` is a map that has the key -/
+def liveRefs (live : JVal) : Option JVal :=
+  match live with
+  | .obj kvs =>
+    match lookup "metadata" kvs with
+    | some (.obj mkvs) => lookup ownerReferences mkvs
+    | _ => none
+  | _ => none
+
+/-- what the two functions decide for a function that should own the object: the reference is in place
+    (`none`; also when they answer with a PermFail *object*, which the caller only tests for truth),
+    or these references have to be written with the patch (the live ones plus the parent's);
+    outer `none` = raised -/
+def ownerFixOf (c : Cfg) (live : JVal) : Option OwnerFix :=
+  if !c.shouldOwn then some .none else
+  match c.ownerRef with
+  | .obj refkvs =>
+    match live with
+    | .obj kvs =>
+      match lookup "metadata" kvs with
+      | some (.obj mkvs) =>
+        match lookup ownerReferences mkvs with
+        | none => some (.refs (.arr [c.ownerRef]))
+        | some refs =>
+          if !truthy refs then some (.refs (.arr [c.ownerRef])) else
+          match refs with
+          | .arr xs =>
+            match scanRefs (uidOf refkvs) xs with
+            | none => none
+            | some true => some .none
+            | some false => some (.refs (.arr (xs ++ [c.ownerRef])))
+          | _ => some .none            -- "Corrupt `ownerReferences`" PermFail object: truthy
+      | _ => some .none                -- "Missing resource" / "Corrupt `metadata`" PermFail object: truthy
+    | _ => some .none
+  | _ => none
+
+/-- the parent's reference really is among the live object's owner references -/
+def refPresent (c : Cfg) (live : JVal) : Bool :=
+  match c.ownerRef, liveRefs live with
+  | .obj refkvs, some (.arr xs) => scanRefs (uidOf refkvs) xs == some true
+  | _, _ => false
+
 /-- the update-policy dispatch (`match crud_config.update`) -/
-def correct (c : Cfg) (t live : JVal) : PassResult :=
+def correct (c : Cfg) (fix : OwnerFix) (t live : JVal) : PassResult :=
   match c.policy with
   | .never => unchanged live
   | .recreate d => ⟨none, .retry d, [.delete]⟩
   | .patch d =>
-    match c.ownerFix with
+    match fix with
     | .permFail => ⟨some live, .permFail, []⟩
     | fix =>
       match (match fix with | .refs r => setOwnerRefs r t | _ => dropOwnerRefs t) with
@@ -198,16 +252,19 @@ def correct (c : Cfg) (t live : JVal) : PassResult :=
         | none => raisedAt live
         | some body => ⟨some (mergePatch live body), .retry d, [.patch body]⟩
 
-def ownerOk (c : Cfg) : Bool := match c.ownerFix with | .none => true | _ => false
+def OwnerFix.isNone : OwnerFix → Bool | .none => true | _ => false
 
 /-- the possible results of a pass that found the object -/
 def passPresent (c : Cfg) (t live : JVal) : List PassResult :=
-  match extractLastApplied c.codec live with
+  match ownerFixOf c live with
   | none => [raisedAt live]
-  | some la =>
-    match validateMatch t live la false with
-    | .ok => if ownerOk c then [unchanged live] else [correct c t live]
-    | .bad d r => (if d then [correct c t live] else []) ++ (if r then [raisedAt live] else [])
+  | some fix =>
+    match extractLastApplied c.codec live with
+    | none => [raisedAt live]
+    | some la =>
+      match validateMatch t live la false with
+      | .ok => if fix.isNone then [unchanged live] else [correct c fix t live]
+      | .bad d r => (if d then [correct c fix t live] else []) ++ (if r then [raisedAt live] else [])
 
 /-- the pass that did not find it: `_create_api_resource` from `_prepare_for_api` on -/
 def passAbsent (c : Cfg) : List PassResult :=
